@@ -182,7 +182,7 @@ class Consumer(object):
         self.sites = set()
         self.last_exc = None
         self.cache_drops = 0
-        self._cache_id = id(self.wrapper._cache) if self.wrapper is not None else None
+        self._cache_id = id(getattr(self.wrapper, '_cache', None)) if self.wrapper is not None else None
         stream.on_starve = self._on_starve
 
     def _on_starve(self, kind):
@@ -213,8 +213,8 @@ class Consumer(object):
                 res = (OBJ, x)
             else:
                 res = (OTHER, x)
-        if self.wrapper is not None and id(self.wrapper._cache) != self._cache_id:
-            self._cache_id = id(self.wrapper._cache)
+        if self.wrapper is not None and id(getattr(self.wrapper, '_cache', None)) != self._cache_id:
+            self._cache_id = id(getattr(self.wrapper, '_cache', None))     # a probe only; private attribute
             self.cache_drops += 1
         pos = self.position()
         self.trace.append(['poll', self.cid, res[0],
